@@ -352,6 +352,8 @@ def run_property(prop, tier, seed):
             'by_backend': by_backend,
             'by_kind': {k: sum(1 for o in obls if o.kind == k) for k in sorted({o.kind for o in obls})},
             'solver_time_s': round(sum(o.time_s or 0 for o in obls), 3),
+            'slowest_obligations_s': [[round(o.time_s or 0, 2), o.id] for o in sorted(obls, key=lambda o: -(o.time_s or 0))[:5]],
+            'per_obligation_timeout_s': timeout,
             'trivially_discharged_by_simplifier': trivial,
             'dropped_statements': eng.dropped,
             'unattached_loop_invariants': R.unattached_loops,
